@@ -95,77 +95,127 @@ Lemma hint_more s a : rem_meta (update_size_hint s a) = rem_meta s /\ last_flush
   /\ initialized (update_size_hint s a) = initialized s.
 Proof. unfold update_size_hint. destruct (size_hint s =? 0); repeat split; reflexivity. Qed.
 
-Lemma meta_call_post s payload offered capn s' x' em :
-  initialized s = true -> fastcond s = false ->
-  inv s -> all_ok2 (oracle s) -> Forall tclean (oracle s) -> clean s -> bstate_ok s ->
-  offered = lenN payload -> Forall (fun b => b < 256) payload ->
-  compress_stream s OpMeta payload offered capn = Done (true, s', x') -> avail_in x' = 0 ->
-  exists segs consumed, call_post (input_pos s) em s s' (produced x') segs consumed.
+Lemma mt_to_call_post em payload s s1 s' x' offered capn segs consumed :
+  initialized s = true -> fastcond s = false -> sstate_ s <> SFinished ->
+  last_bytes s1 = last_bytes s -> last_bytes_bits s1 = last_bytes_bits s -> oracle s1 = oracle s ->
+  input_pos s1 = input_pos s -> same_cfg s s1 -> (forall e, wire e s1 = wire e s) ->
+  mt_post em payload s1 (io0 offered capn) s' x' segs consumed ->
+  call_post (input_pos s) em s s' (produced x') segs consumed.
 Proof.
-  intros Hini Hfc Hi Hok Htc Hcl [Hb1 Hb2] Hoff Hby Hrun Hai.
-  unfold compress_stream, compress_stream_from, process_metadata in Hrun.
+  intros Hini Hfc Hnf E1 E2 E3 E4 E5 E6 T. destruct T as [T1 T2 T3 T4 T5 T6 T7 T8 T9 T10].
+  rewrite E1, E2 in T2, T3. rewrite E3 in T1. rewrite E4 in T5, T8.
+  assert (Hs' : sstate_ s' <> SFinished).
+  { destruct T10 as [[E _]|[[E _]|[E _]]]; rewrite E; discriminate. }
+  constructor; try assumption.
+  - intros K. rewrite (T4 K). cbn [produced io0]. rewrite app_nil_r, E6. reflexivity.
+  - intros Hf. contradiction.
+  - intros _. split; assumption.
+  - pose proof (same_cfg_trans _ _ _ E5 T9) as Cf. split; [destruct Cf as [C1 _]; rewrite C1; exact Hini|].
+    rewrite (same_cfg_fastcond _ _ Cf). exact Hfc.
+  - destruct T10 as [[A B]|[[A (B & C & D & E)]|[A (B & C)]]]; split; intros H; rewrite A in H; try discriminate H; try assumption.
+    repeat split; assumption.
+Qed.
+
+(* process_metadata after the guards, with the fuel abstract *)
+Definition pm_body (fuel : nat) (s : st) (payload : list N) (x : io) : outcome (bool * st * io) :=
+  let s1 := if sstate_eqb (sstate_ s) SProcessing then upd_core s (initialized s) SMetaHead (w32 (avail_in x)) else s in
+  if negb (sstate_eqb (sstate_ s1) SMetaHead) && negb (sstate_eqb (sstate_ s1) SMetaBody) then Done (false, s1, x)
+  else meta_loop fuel payload s1 x.
+
+Lemma meta_call_unfold s payload offered capn s' x' : initialized s = true ->
+  compress_stream s OpMeta payload offered capn = Done (true, s', x') ->
+  (negb (rem_meta s =? U32MAX) && negb (offered =? rem_meta s)) = false /\ offered <= 2 ^ 24
+  /\ exists fuel, pm_body fuel (update_size_hint s 0) payload (io0 offered capn) = Done (true, s', x').
+Proof.
+  intros Hini Hrun. unfold compress_stream, compress_stream_from, process_metadata in Hrun.
   set (fuel := 64%nat) in Hrun. clearbody fuel.
-  rewrite (ensure_initialized_id s Hini) in Hrun.
-  fold (io0 offered capn) in Hrun. cbn [opk_eqb negb orb] in Hrun. rewrite orb_false_r in Hrun.
-  destruct (negb (rem_meta s =? U32MAX) && negb (offered =? rem_meta s)) eqn:Cg; [discriminate|].
-  cbn [avail_in io0] in Hrun.
-  destruct (N.ltb_spec (2 ^ 24) offered) as [|H24]; [discriminate|].
-  set (sh := update_size_hint s 0) in *.
-  destruct (hint_fields s 0) as (V1 & V2 & V3 & V4). destruct (update_size_hint_oracle s 0) as [U1 U2].
-  destruct (hint_more s 0) as (M1 & M2 & M3 & M4 & M5). fold sh in V1, V2, V3, V4, U1, U2, M1, M2, M3, M4, M5.
-  assert (Hih : inv sh) by (apply inv_size_hint; exact Hi).
-  assert (Hcfgh : same_cfg s sh) by apply same_cfg_hint.
-  assert (Fin : forall segs consumed (s1 : st), sstate_ s <> SFinished ->
-            last_bytes s1 = last_bytes s -> last_bytes_bits s1 = last_bytes_bits s -> oracle s1 = oracle s ->
-            input_pos s1 = input_pos s -> same_cfg s s1 -> (forall e, wire e s1 = wire e s) ->
-            mt_post em payload s1 (io0 offered capn) s' x' segs consumed ->
-            call_post (input_pos s) em s s' (produced x') segs consumed).
-  { intros segs consumed s1 Hnf E1 E2 E3 E4 E5 E6 T. destruct T as [T1 T2 T3 T4 T5 T6 T7 T8 T9 T10].
-    rewrite E1, E2 in T2, T3. rewrite E3 in T1. rewrite E4 in T5, T8.
-    assert (Hs' : sstate_ s' <> SFinished).
-    { destruct T10 as [[E _]|[[E _]|[E _]]]; rewrite E; discriminate. }
-    constructor; try assumption.
-    - intros K. rewrite (T4 K). cbn [produced io0]. rewrite app_nil_r, E6. reflexivity.
-    - intros Hf. contradiction.
-    - intros _. split; assumption.
-    - pose proof (same_cfg_trans _ _ _ E5 T9) as Cf. split; [destruct Cf as [C1 _]; rewrite C1; exact Hini|].
-      rewrite (same_cfg_fastcond _ _ Cf). exact Hfc.
-    - destruct T10 as [[A B]|[[A (B & C & D & E)]|[A (B & C)]]]; split; intros H; rewrite A in H; try discriminate H; try assumption.
-      repeat split; assumption. }
-  destruct (sstate_ s) eqn:Est.
-  - (* a new metadata block *)
-    rewrite V4 in Hrun. cbn [sstate_eqb] in Hrun. fs_in Hrun. cbn [sstate_eqb negb andb] in Hrun.
+  rewrite (ensure_initialized_id s Hini) in Hrun. fold (io0 offered capn) in Hrun.
+  cbn [opk_eqb negb orb] in Hrun. rewrite orb_false_r in Hrun.
+  destruct (negb (rem_meta s =? U32MAX) && negb (offered =? rem_meta s)); [discriminate|].
+  split; [reflexivity|]. cbn [avail_in io0] in Hrun.
+  destruct (N.ltb_spec (2 ^ 24) offered) as [|H24]; [discriminate|]. split; [exact H24|].
+  exists fuel. exact Hrun.
+Qed.
+
+Section MetaCall.
+  Variables (s : st) (payload : list N) (offered capn : N) (s' : st) (x' : io) (em : list N) (fuel : nat).
+  Hypothesis Hini : initialized s = true.
+  Hypothesis Hfc : fastcond s = false.
+  Hypothesis Hi : inv s.
+  Hypothesis Hok : all_ok2 (oracle s).
+  Hypothesis Htc : Forall tclean (oracle s).
+  Hypothesis Hcl : clean s.
+  Hypothesis Hoff : offered = lenN payload.
+  Hypothesis Hby : Forall (fun b => b < 256) payload.
+  Hypothesis H24 : offered <= 2 ^ 24.
+  Hypothesis Hrun : pm_body fuel (update_size_hint s 0) payload (io0 offered capn) = Done (true, s', x').
+  Hypothesis Hai : avail_in x' = 0.
+
+  Let sh := update_size_hint s 0.
+
+  Lemma meta_call_new : sstate_ s = SProcessing ->
+    exists segs consumed, call_post (input_pos s) em s s' (produced x') segs consumed.
+  Proof.
+    intros Est. destruct (hint_fields s 0) as (V1 & V2 & V3 & V4). destruct (update_size_hint_oracle s 0) as [U1 U2].
+    fold sh in V1, V2, V3, V4, U1, U2.
+    assert (Hih : inv sh) by (apply inv_size_hint; exact Hi).
+    unfold pm_body in Hrun. fold sh in Hrun. rewrite V4, Est in Hrun. cbn [sstate_eqb avail_in io0] in Hrun. fs_in Hrun.
+    cbn [sstate_eqb negb andb] in Hrun.
     set (s1 := upd_core sh (initialized sh) SMetaHead (w32 offered)) in *.
     assert (Hw : w32 offered = offered) by (apply w32_small; change (2 ^ 24) with 16777216 in H24; change (2 ^ 32) with 4294967296; lia).
     assert (Hi1 : inv s1).
     { destruct Hih as [Hc [Hp [Ht Hl]]]. unfold s1, inv, cursor_ok, pad_ok in *. fs. split; [exact Hc|]. split; [intros H; discriminate H|split; assumption]. }
-    destruct (meta_head payload fuel s1 (io0 offered capn) s' x' em Hi1 ltac:(unfold s1; fs; rewrite U1; exact Hok)
-                ltac:(unfold s1; fs; rewrite U1; exact Htc) ltac:(unfold clean, s1; fs; rewrite V1, V2; exact Hcl)
-                eq_refl ltac:(unfold s1; fs; exact Hw) eq_refl Hoff H24 Hby Hrun Hai) as (segs & consumed & T).
+    assert (A1 : all_ok2 (oracle s1)) by (unfold s1; fs; rewrite U1; exact Hok).
+    assert (A2 : Forall tclean (oracle s1)) by (unfold s1; fs; rewrite U1; exact Htc).
+    assert (A3 : clean s1) by (unfold clean, s1; fs; rewrite V1, V2; exact Hcl).
+    assert (A4 : rem_meta s1 = avail_in (io0 offered capn)) by (unfold s1; fs; exact Hw).
+    destruct (meta_head payload fuel s1 (io0 offered capn) s' x' em Hi1 A1 A2 A3 eq_refl A4 eq_refl Hoff H24 Hby Hrun Hai) as (segs & consumed & T).
     exists segs, consumed.
     assert (Ec : same_cfg s s1).
-    { eapply same_cfg_trans; [exact Hcfgh|]. unfold same_cfg, s1. fs. repeat split; reflexivity. }
+    { eapply same_cfg_trans; [apply (same_cfg_hint s 0)|]. unfold same_cfg, s1. fs. repeat split; reflexivity. }
     assert (Ew : forall e, wire e s1 = wire e s).
     { intros e. unfold s1. change (wire e (upd_core sh (initialized sh) SMetaHead (w32 offered))) with (wire e sh). apply wire_size_hint. }
-    exact (Fin segs consumed s1 ltac:(discriminate) V1 V2 U1 V3 Ec Ew T).
-  - rewrite V4 in Hrun. cbn [sstate_eqb negb andb] in Hrun. rewrite V4 in Hrun. cbn [sstate_eqb negb andb] in Hrun. discriminate Hrun.
-  - rewrite V4 in Hrun. cbn [sstate_eqb negb andb] in Hrun. rewrite V4 in Hrun. cbn [sstate_eqb negb andb] in Hrun. discriminate Hrun.
-  - (* continuing before the header of an empty block *)
-    rewrite V4 in Hrun. cbn [sstate_eqb negb andb] in Hrun. rewrite V4 in Hrun. cbn [sstate_eqb negb andb] in Hrun.
-    specialize (Hb1 eq_refl). rewrite Hb1 in Cg. cbn [N.eqb U32MAX negb andb] in Cg.
-    apply negb_false_iff in Cg. apply N.eqb_eq in Cg.
-    destruct (meta_head payload fuel sh (io0 offered capn) s' x' em Hih ltac:(rewrite U1; exact Hok) ltac:(rewrite U1; exact Htc)
-                ltac:(unfold clean; rewrite V1, V2; exact Hcl) V4 ltac:(rewrite M1, Hb1; cbn; lia) eq_refl Hoff H24 Hby Hrun Hai)
-      as (segs & consumed & T).
+    apply (mt_to_call_post em payload s s1 s' x' offered capn segs consumed Hini Hfc); try assumption.
+    rewrite Est. discriminate.
+  Qed.
+
+  Lemma meta_call_head : sstate_ s = SMetaHead -> rem_meta s = 0 -> offered = 0 ->
+    exists segs consumed, call_post (input_pos s) em s s' (produced x') segs consumed.
+  Proof.
+    intros Est Hb1 Ho0. destruct (hint_fields s 0) as (V1 & V2 & V3 & V4). destruct (update_size_hint_oracle s 0) as [U1 U2].
+    destruct (hint_more s 0) as (M1 & _). fold sh in V1, V2, V3, V4, U1, U2, M1.
+    assert (Hih : inv sh) by (apply inv_size_hint; exact Hi).
+    unfold pm_body in Hrun. fold sh in Hrun. rewrite V4, Est in Hrun. cbn [sstate_eqb] in Hrun. rewrite V4, Est in Hrun.
+    cbn [sstate_eqb negb andb] in Hrun.
+    assert (A1 : all_ok2 (oracle sh)) by (rewrite U1; exact Hok).
+    assert (A2 : Forall tclean (oracle sh)) by (rewrite U1; exact Htc).
+    assert (A3 : clean sh) by (unfold clean; rewrite V1, V2; exact Hcl).
+    assert (A4 : rem_meta sh = avail_in (io0 offered capn)) by (rewrite M1, Hb1; cbn [avail_in io0]; lia).
+    assert (A5 : sstate_ sh = SMetaHead) by (rewrite V4; exact Est).
+    destruct (meta_head payload fuel sh (io0 offered capn) s' x' em Hih A1 A2 A3 A5 A4 eq_refl Hoff H24 Hby Hrun Hai) as (segs & consumed & T).
     exists segs, consumed.
-    exact (Fin segs consumed sh ltac:(discriminate) V1 V2 U1 V3 Hcfgh (fun e => wire_size_hint e s 0) T).
-  - (* draining a complete block *)
-    rewrite V4 in Hrun. cbn [sstate_eqb negb andb] in Hrun. rewrite V4 in Hrun. cbn [sstate_eqb negb andb] in Hrun.
-    destruct (Hb2 eq_refl) as (B1 & B2 & B3 & B4). rewrite B1 in Cg. cbn [N.eqb U32MAX negb andb] in Cg.
-    apply negb_false_iff in Cg. apply N.eqb_eq in Cg.
+    apply (mt_to_call_post em payload s sh s' x' offered capn segs consumed Hini Hfc); try assumption.
+    - rewrite Est. discriminate.
+    - apply same_cfg_hint.
+    - intros e. apply wire_size_hint.
+  Qed.
+
+  Lemma meta_call_body : sstate_ s = SMetaBody -> rem_meta s = 0 -> last_bytes s = 0 -> last_bytes_bits s = 0 -> quiet s -> offered = 0 ->
+    exists segs consumed, call_post (input_pos s) em s s' (produced x') segs consumed.
+  Proof.
+    intros Est B1 B2 B3 B4 Ho0. destruct (hint_fields s 0) as (V1 & V2 & V3 & V4). destruct (update_size_hint_oracle s 0) as [U1 U2].
+    destruct (hint_more s 0) as (M1 & M2 & M3 & M4 & M5). fold sh in V1, V2, V3, V4, U1, U2, M1, M2, M3, M4, M5.
+    assert (Hih : inv sh) by (apply inv_size_hint; exact Hi).
+    unfold pm_body in Hrun. fold sh in Hrun. rewrite V4, Est in Hrun. cbn [sstate_eqb] in Hrun. rewrite V4, Est in Hrun.
+    cbn [sstate_eqb negb andb] in Hrun.
     assert (Hqh : quiet sh) by (unfold quiet; rewrite V3, M2, M3, M4; exact B4).
-    destruct (meta_body payload fuel sh (io0 offered capn) s' x' em Hih V4 ltac:(rewrite M1, B1; cbn; lia) ltac:(cbn; lia) H24
-                ltac:(rewrite V1; exact B2) ltac:(rewrite V2; exact B3) Hqh Hrun Hai) as (W & O & Hi' & L1 & L2 & Hp' & Hq' & Hc' & He).
+    assert (A4 : rem_meta sh = avail_in (io0 offered capn)) by (rewrite M1, B1; cbn [avail_in io0]; lia).
+    assert (A5 : sstate_ sh = SMetaBody) by (rewrite V4; exact Est).
+    assert (A6 : in_off (io0 offered capn) + avail_in (io0 offered capn) = lenN payload) by (cbn [in_off avail_in io0]; lia).
+    assert (A7 : last_bytes sh = 0) by (rewrite V1; exact B2).
+    assert (A8 : last_bytes_bits sh = 0) by (rewrite V2; exact B3).
+    destruct (meta_body payload fuel sh (io0 offered capn) s' x' em Hih A5 A4 A6 H24 A7 A8 Hqh Hrun Hai)
+      as (W & O & Hi' & L1 & L2 & Hp' & Hq' & Hc' & He).
     assert (Ep : payload = []) by (apply lenN_0_nil; lia).
     exists [], []. constructor.
     + cbn [app]. rewrite O, U1. reflexivity.
@@ -176,10 +226,34 @@ Proof.
     + constructor.
     + intros Hf. destruct He as [[E _]|[E _]]; rewrite E in Hf; discriminate Hf.
     + intros _. split; [apply Forall_nil|rewrite Est; discriminate].
-    + split; [exact Hi'|]. rewrite O, U1. split; [exact Hok|]. split; [exact Htc|]. unfold clean. rewrite L1, L2. reflexivity.
+    + split; [exact Hi'|]. rewrite O, U1. split; [exact Hok|]. split; [exact Htc|]. unfold clean. rewrite L1, L2. exact cleanv_00.
     + rewrite Hp', V3. reflexivity.
-    + pose proof (same_cfg_trans _ _ _ Hcfgh Hc') as Cf. split; [destruct Cf as [C1 _]; rewrite C1; exact Hini|].
+    + pose proof (same_cfg_trans _ _ _ (same_cfg_hint s 0) Hc') as Cf. split; [destruct Cf as [C1 _]; rewrite C1; exact Hini|].
       rewrite (same_cfg_fastcond _ _ Cf). exact Hfc.
     + destruct He as [[A B]|[A B]]; split; intros H; rewrite A in H; try discriminate H.
       repeat split; assumption.
+  Qed.
+End MetaCall.
+
+Lemma meta_call_post s payload offered capn s' x' em :
+  initialized s = true -> fastcond s = false ->
+  inv s -> all_ok2 (oracle s) -> Forall tclean (oracle s) -> clean s -> bstate_ok s ->
+  offered = lenN payload -> Forall (fun b => b < 256) payload ->
+  compress_stream s OpMeta payload offered capn = Done (true, s', x') -> avail_in x' = 0 ->
+  exists segs consumed, call_post (input_pos s) em s s' (produced x') segs consumed.
+Proof.
+  intros Hini Hfc Hi Hok Htc Hcl [Hb1 Hb2] Hoff Hby Hrun Hai.
+  destruct (meta_call_unfold s payload offered capn s' x' Hini Hrun) as (Cg & H24 & fuel & Hpm).
+  destruct (sstate_ s) eqn:Est.
+  - eapply meta_call_new; eassumption.
+  - exfalso. unfold pm_body in Hpm. destruct (hint_fields s 0) as (_ & _ & _ & V4). rewrite V4, Est in Hpm.
+    cbn [sstate_eqb] in Hpm. rewrite V4, Est in Hpm. cbn [sstate_eqb negb andb] in Hpm. discriminate Hpm.
+  - exfalso. unfold pm_body in Hpm. destruct (hint_fields s 0) as (_ & _ & _ & V4). rewrite V4, Est in Hpm.
+    cbn [sstate_eqb] in Hpm. rewrite V4, Est in Hpm. cbn [sstate_eqb negb andb] in Hpm. discriminate Hpm.
+  - specialize (Hb1 eq_refl). rewrite Hb1 in Cg. cbn [N.eqb U32MAX negb andb] in Cg.
+    apply negb_false_iff in Cg. apply N.eqb_eq in Cg.
+    eapply meta_call_head; eassumption.
+  - destruct (Hb2 eq_refl) as (B1 & B2 & B3 & B4). rewrite B1 in Cg. cbn [N.eqb U32MAX negb andb] in Cg.
+    apply negb_false_iff in Cg. apply N.eqb_eq in Cg.
+    eapply meta_call_body; eassumption.
 Qed.
